@@ -64,8 +64,8 @@ Print Assumptions C04_type_spelled_as_denoted.
 
 (* non-vacuity: a variadic function over a generic instance, an embedded field with a tag, unsafe.Pointer *)
 Example C04_type_example :
-  let t := TFunc [TNamed "example.com/q" "Box" [TSlice (TBasic "int")]; TSlice (TStruct [("Reader", true, "json:\"r\"", TNamed "io" "Reader" [])])] true [TBasic "Pointer"; TNamed "" "error" []] in
+  let t := TFunc [TNamed "example.com/q" "Box" [TSlice (TBasic "int")]; TSlice (TStruct [("Reader", true, "json:""r""", TNamed "io" "Reader" [])])] true [TBasic "Pointer"; TNamed "" "error" []] in
   render "example.com/p" (fun p => if String.eqb p "io" then "io0" else if String.eqb p "unsafe" then "unsafe" else "q") t =
-    EFunc [("arg0", EIndex (ESel "q" "Box") [EArr None (EId "int")]); ("arg1", EEllipsis (EStruct [(None, "json:\"r\"", ESel "io0" "Reader")]))]
+    EFunc [("arg0", EIndex (ESel "q" "Box") [EArr None (EId "int")]); ("arg1", EEllipsis (EStruct [(None, "json:""r""", ESel "io0" "Reader")]))]
           [("result0", ESel "unsafe" "Pointer"); ("result1", EId "error")].
 Proof. vm_compute. reflexivity. Qed.
